@@ -169,7 +169,9 @@ package config
 
 // Registration sites: the precondition above is an obligation at every call.
 //@ func baseRules [C08]
-//@ func parseRule [C08]
+// (C18) every check of a rule {} block is built from its settings without reaching a panic in code that has no contract
+//@ func parseRule [C08, C18]
+//@   safe callee-panics panic
 //@ func Config.GetChecksForEntry [C08]
 
 // The enable decision. disabledByComment captures the answer of isDisabledForRule (rule-level control comments).
@@ -298,3 +300,27 @@ package config
 //@   loop 3 invariant urlParses(pc.URI) && forall i int :: 0 <= i && i < len(pc.Failover) ==> urlParses(pc.Failover[i])
 //@   loop 4 invariant urlParses(pc.URI) && forall i int :: 0 <= i && i < len(pc.Failover) ==> urlParses(pc.Failover[i])
 //@   loop 5 invariant urlParses(pc.URI) && forall i int :: 0 <= i && i < len(pc.Failover) ==> urlParses(pc.Failover[i])
+
+// C18 (severities): the severity of a settings block is read at lint time for every rule; whatever string was
+// accepted at load time (including an empty or unset one) this never panics - neither the method itself nor any
+// function without a contract that it calls can reach an explicit panic or a Must-style call.
+//@ func AggregateSettings.getSeverity [C18]
+//@   safe callee-panics panic
+//@ func AlertsSettings.getSeverity [C18]
+//@   safe callee-panics panic
+//@ func AnnotationSettings.getSeverity [C18]
+//@   safe callee-panics panic
+//@ func CostSettings.getSeverity [C18]
+//@   safe callee-panics panic
+//@ func ForSettings.getSeverity [C18]
+//@   safe callee-panics panic
+//@ func RangeQuerySettings.getSeverity [C18]
+//@   safe callee-panics panic
+//@ func RejectSettings.getSeverity [C18]
+//@   safe callee-panics panic
+//@ func ReportSettings.getSeverity [C18]
+//@   safe callee-panics panic
+//@ func RuleLinkSettings.getSeverity [C18]
+//@   safe callee-panics panic
+//@ func RuleNameSettings.getSeverity [C18]
+//@   safe callee-panics panic
